@@ -278,8 +278,17 @@ pub fn any_finite64() -> f64 {
 // arena keys
 // ---------------------------------------------------------------------------------------------------------------
 
+/// `any_small_key(cap)`: a key whose index AND generation are both below `cap` (valid to look up in an arena of
+/// capacity >= cap: `Arena::get` indexes its slot vector with the key's index, so only keys minted for an arena of the
+/// same capacity may be used with it -- kira never mixes id types).
 /// An arbitrary `atomic_arena::Key` (two private `usize` fields: index and generation).  Built by transmuting
 /// two symbolic words; both fields have the same type so the (unspecified) field order does not matter.
+pub fn any_small_key(cap: usize) -> atomic_arena::Key {
+    let raw: (usize, usize) = (kani::any(), kani::any());
+    kani::assume(raw.0 < cap && raw.1 < cap);
+    unsafe { core::mem::transmute::<(usize, usize), atomic_arena::Key>(raw) }
+}
+
 pub fn any_key() -> atomic_arena::Key {
     let raw: (usize, usize) = (kani::any(), kani::any());
     unsafe { core::mem::transmute::<(usize, usize), atomic_arena::Key>(raw) }
@@ -304,4 +313,50 @@ pub fn any_easing() -> crate::Easing {
         5 => Easing::OutPowf(pf),
         _ => Easing::InOutPowf(pf),
     }
+}
+
+// ---------------------------------------------------------------------------------------------------------------
+// uninterpreted (recording) stubs for modular proofs: callers are checked against "what was called with what"
+// ---------------------------------------------------------------------------------------------------------------
+pub const REC: usize = 4;
+pub static mut TV_N: usize = 0;
+pub static mut TV_TIME: [f64; REC] = [0.0; REC];
+pub static mut TV_RET: [f64; REC] = [0.0; REC];
+pub static mut TV_DUR: [f64; REC] = [0.0; REC];
+
+/// Recording stand-in for `Tween::value(&self, time)`: returns an arbitrary value in [0,1] and records (duration, time, result).
+/// Contract assumed here and proved separately (C06.4e): result in [0,1] for 0 <= time <= duration.
+pub fn tween_value_rec(this: &crate::Tween, time: f64) -> f64 {
+    let r = any_f64_in(0.0, 1.0);
+    unsafe {
+        if TV_N < REC {
+            TV_TIME[TV_N] = time;
+            TV_RET[TV_N] = r;
+            TV_DUR[TV_N] = this.duration.as_secs_f64();
+        }
+        TV_N += 1;
+    }
+    r
+}
+
+pub static mut IP_N: usize = 0;
+pub static mut IP_A: [f64; REC] = [0.0; REC];
+pub static mut IP_B: [f64; REC] = [0.0; REC];
+pub static mut IP_T: [f64; REC] = [0.0; REC];
+pub static mut IP_RET: [f64; REC] = [0.0; REC];
+
+/// Recording stand-in for `<f64 as Tweenable>::interpolate(a, b, amount)`.
+pub fn interpolate_f64_rec(a: f64, b: f64, amount: f64) -> f64 {
+    let r: f64 = kani::any();
+    kani::assume(r.is_finite());
+    unsafe {
+        if IP_N < REC {
+            IP_A[IP_N] = a;
+            IP_B[IP_N] = b;
+            IP_T[IP_N] = amount;
+            IP_RET[IP_N] = r;
+        }
+        IP_N += 1;
+    }
+    r
 }
